@@ -18,7 +18,8 @@ CLAIM = {
          "that every successful return has consumed input through the same object (base: Read::read_exact into a fixed non-empty buffer; Ok resp. "
          "Some(Ok) edge, located by following the result through `?`, context, is_some/is_none, match); relative seeks have a proved non-negative "
          "argument, the one absolute seek pair (with_pos) saves and restores the position. Sites that cannot be discharged are violations unless listed by exact key as a recorded finding "
-         "(known_findings.json) or as reviewed-safe with a reason (reviewed_safe.json). (R16.6) every Err item of BufRead::lines() is propagated (no flatten/filter_map/.ok() on line results: a persistently failing reader would loop forever); integer Iterator::sum/product are overflow leaves. Premises evaluated with it: C02 R02.5/R02.6 (progress of the writer's jump-rewrite loop).",
+         "(known_findings.json) or as reviewed-safe with a reason (reviewed_safe.json; a reviewed site that moved into another function of the crate - helper, "
+         "nested fn, closure - is recognised by its unchanged obligation text, one reviewed entry per moved site and only entries whose own function lost the site). (R16.6) every Err item of BufRead::lines() is propagated (no flatten/filter_map/.ok() on line results: a persistently failing reader would loop forever); integer Iterator::sum/product are overflow leaves. Premises evaluated with it: C02 R02.5/R02.6 (progress of the writer's jump-rewrite loop).",
  "note": "Not decided: termination of loops inside external crates and of the write_code retry loop beyond the reviewed set-growth argument (its two premises "
          "are C02 R02.5/R02.6), stack depth of non-recursive call chains, panics inside external crates other than the frozen "
          "list of panicking std/indexmap leaves, behaviour of const-generic instances other than the first one dumped per function (N only changes array "
@@ -41,32 +42,62 @@ def short(path):
 _KEY_RE = re.compile(r"^((?:[^:]|::)+):(.*)$")
 
 
+_ARG_RE = re.compile(r"\barg(\d+)\b")
+
+
+def _site_what(fn, what):
+    """`what` of an obligation, independent of whether the enclosing function is a closure or a fn item: MIR gives a closure its
+    environment as parameter 1, so the written parameters are arg2.. in a closure and arg1.. in a fn item with the same parameter list."""
+    if not fn.endswith("{closure}"):
+        return what
+    return _ARG_RE.sub(lambda m: "env" if m.group(1) == "1" else "arg%d" % (int(m.group(1)) - 1), what)
+
+
 class Reviewed:
     """Lookup of reviewed-safe entries.  Exact key first.  If the code of a reviewed site was moved into another function (helper
-    extraction / inlining: the site's `what` - panic message, operand description - is unchanged, only the function part of the key is
-    new) the entry is found by its `what`, provided it is unambiguous: exactly one reviewed entry carries that `what`, and the function it
-    names no longer has an obligation with it (so the site moved, it was not duplicated)."""
+    extraction / inlining / closure <-> nested fn: the site's `what` - panic message, operand description - is unchanged up to the
+    parameter numbering of closures, only the function part of the key is new) the entry is found by its `what`.  Soundness of the
+    moved-site lookup: an entry can only be taken if it is *free*, i.e. the function it names has fewer obligations with that `what`
+    in this tree than there are reviewed entries for it (keys `fn:what`, `fn:what#2`, ...: the first L of them belong to the L
+    obligations that still exist there, the others lost their site); every free entry is handed out at most once, to an obligation
+    of the same crate, so n moved sites need n free entries and a duplicated site stays reported."""
 
     def __init__(self, R, live_whats):
         self.R = R
-        self.live = live_whats          # fn -> set(what) of the obligations that exist in this tree
-        self.by_what = {}
+        self.live = live_whats          # fn -> {what: number of obligations with the key base `fn:what` in this tree}
+        self.free = {}                  # (crate, normalised what) -> [reviewed key, ...] entries whose site no longer exists in their function
+        self.given = {}                 # obligation key -> reviewed key (stable answer for repeated lookups)
+        groups = {}
         for k in R.reviewed:
             m = _KEY_RE.match(k)
-            if m:
-                self.by_what.setdefault(m.group(2), []).append((m.group(1), k))
+            if not m or "::" not in m.group(1):
+                continue
+            fn, what = m.group(1), m.group(2)
+            n = 1
+            mm = re.search(r"#(\d+)$", what)
+            if mm:
+                n, what = int(mm.group(1)), what[:mm.start()]
+            groups.setdefault((fn, what), []).append((n, k))
+        for (fn, what), es in sorted(groups.items()):
+            nlive = self.live.get(fn, {}).get(what, 0)
+            for n, k in sorted(es):
+                if n > nlive:
+                    self.free.setdefault((fn.split("::", 1)[0], _site_what(fn, what)), []).append(k)
 
     def get(self, key):
         if key in self.R.reviewed:
             return key
+        if key in self.given:
+            return self.given[key]
         m = _KEY_RE.match(key)
-        if not m:
+        if not m or "::" not in m.group(1):
             return None
         fn, what = m.group(1), re.sub(r"#\d+$", "", m.group(2))
-        cands = self.by_what.get(what, [])
-        if len(cands) == 1 and cands[0][0] != fn and what not in self.live.get(cands[0][0], set()):
-            return cands[0][1]
-        return None
+        pool = self.free.get((fn.split("::", 1)[0], _site_what(fn, what)))
+        if not pool:
+            return None
+        self.given[key] = pool.pop(0)
+        return self.given[key]
 
 
 def block_state(f, bi):
@@ -131,7 +162,7 @@ def run(F, R, tier):
         seen_keys[base] = n
         return base if n == 1 else "%s#%d" % (base, n)
 
-    # which (function, what) panic / assert obligations exist in this tree (for the moved-site lookup of reviewed entries)
+    # how many panic / assert obligations exist per (function, what) in this tree (for the moved-site lookup of reviewed entries)
     live_whats = {}
     for f in P.fns.values():
         fn = short(f.path)
@@ -140,16 +171,24 @@ def run(F, R, tier):
                 continue
             t = b["t"]
             if t["k"] == "assert" and not t["ak"].startswith("ptr"):
-                live_whats.setdefault(fn, set()).add("%s:%s" % (t["ak"], " ".join(f.stable_describe(o) for o in t["ops"])))
+                w = "%s:%s" % (t["ak"], " ".join(f.stable_describe(o) for o in t["ops"]))
+                live_whats.setdefault(fn, {}).setdefault(w, 0)
+                live_whats[fn][w] += 1
             elif t["k"] == "call":
+                seen_paths = set()          # one obligation per callee path and call site, as in the loop below
                 for ce in f.calls.get(bi, []):
                     if ce["key"] in P.fns:
                         continue
                     info = P.callees.get(ce["key"]) or {}
                     path = info.get("path") or ce.get("full") or ce["key"]
+                    if path in seen_paths:
+                        continue
+                    seen_paths.add(path)
                     cls = M.classify_callee(path)
                     if cls and cls[0] in ("panic", "constarg"):
-                        live_whats.setdefault(fn, set()).add(panic_what(f, t, M.strip_generics(path).rsplit("::", 1)[-1], path))
+                        w = panic_what(f, t, M.strip_generics(path).rsplit("::", 1)[-1], path)
+                        live_whats.setdefault(fn, {}).setdefault(w, 0)
+                        live_whats[fn][w] += 1
     RV = Reviewed(R, live_whats)
 
     # --- per function obligations, in a deterministic order (by span)
